@@ -18,7 +18,7 @@
 (*         count, match = (lo, hi, depth) of sa_match_continuation, da = the same  *)
 (*         from da_match_max_length, mcount = match_count, minl / maxl = window    *)
 (*  longest {inputs, pos, res:[[len, dict_pos] | []], minl}   find_longest_match   *)
-(*  eqr    {p, lo, hi, chs, res:[[a,b]]}   sa_equal_range(lo, hi, |p|, ch)         *)
+(*  eqr    {chs, items:[{p, lo, hi, res:[[a,b]]}]}   sa_equal_range(lo, hi, |p|, ch) *)
 (*  built  {ok, n, dtext}                  dictionary constructed (its text) / refused *)
 (*  text_proj {text:digest}  sa_proj {n, len, perm, violations, distinct}  large case *)
 (*  panic  {in, msg, head}                 no action: rejected                     *)
@@ -40,7 +40,7 @@ Step(e) ==
     \/ e.op = "bwt"      /\ Bwt(e.bwt)
     \/ e.op = "search"   /\ Holds(SearchEventAns(e)) /\ Same
     \/ e.op = "longest"  /\ Longest(e.inputs, e.pos, e.res, e.minl)
-    \/ e.op = "eqr"      /\ EqRange(e.p, e.lo, e.hi, e.chs, e.res)
+    \/ e.op = "eqr"      /\ EqRanges(e.chs, e.items)
     \/ e.op = "built"    /\ DictBuilt(e.ok, IF e.ok THEN e.n ELSE 0, IF e.ok THEN e.dtext ELSE <<>>)
     \/ e.op = "text_proj" /\ SetTextProjected
     \/ e.op = "sa_proj"  /\ BuiltProjected(e.n, e.len, e.perm, e.violations)
